@@ -100,19 +100,33 @@ pub struct RecorderInner {
     pub now: u64,
 }
 
-#[derive(Clone, Default)]
-pub struct Recorder(pub Arc<Mutex<RecorderInner>>);
+#[derive(Clone)]
+pub struct Recorder(pub Arc<Mutex<RecorderInner>>, pub Arc<Mutex<super::monitor::Online>>);
+
+impl Default for Recorder {
+    fn default() -> Self {
+        Recorder(
+            Arc::new(Mutex::new(RecorderInner::default())),
+            Arc::new(Mutex::new(super::monitor::Online::new())),
+        )
+    }
+}
 
 impl Recorder {
     pub fn new() -> Self {
         Self::default()
     }
     pub fn push(&self, t: u64, ev: Ev) {
+        // monitors first (they read live state "as of this event"), then the log
+        self.1.lock().unwrap().on_event(t, &ev);
         let mut g = self.0.lock().unwrap();
         if t > g.now {
             g.now = t;
         }
         g.events.push(Rec { t, ev });
+    }
+    pub fn online(&self) -> std::sync::MutexGuard<'_, super::monitor::Online> {
+        self.1.lock().unwrap()
     }
     pub fn len(&self) -> usize {
         self.0.lock().unwrap().events.len()
